@@ -32,7 +32,8 @@ impl WordInfoData {
 impl From<LexiconSetError> for SudachiError { #[verifier::external_body] fn from(e: LexiconSetError) -> SudachiError { SudachiError::LexiconSetError(e) } }
 
 /// opaque collaborator: one lexicon (trie + word-id table + word infos + parameters); only its number and the record lookup matter here
-pub struct Lexicon<'a> { lex_id: u8, _p: core::marker::PhantomData<&'a ()> }
+#[verifier::external_body] pub struct AbstractRest { _p: () }
+pub struct Lexicon<'a> { lex_id: u8, _rest: AbstractRest, _p: core::marker::PhantomData<&'a ()> }
 impl<'a> Lexicon<'a> {
     /// word info of this lexicon as stored (dictionary-local part-of-speech numbers and references)
     uninterp spec fn sp_info(&self, word_id: u32, subset: InfoSubset) -> WordInfo;
